@@ -17,7 +17,8 @@ CODES = {
     "EnumFieldValueOverflow": 12, "DuplicatedEnumFieldValue": 13, "InvalidAliasedType": 14,
     "InvalidMessageFieldNumber": 15, "DuplicatedMessageFieldNumber": 16, "UnsupportedOption": 17,
     "InvalidOptionValue": 18, "MessageSizeOverflows": 19, "AliasInMessageUnsupported": 20,
-    "ConstInMessageUnsupported": 21, "UnsupportedToDeclareProtoNameOutofProtoScope": 23,
+    "ConstInMessageUnsupported": 21, "ImportInMessageUnsupported": 22,
+    "UnsupportedToDeclareProtoNameOutofProtoScope": 23,
     "AliasInEnumUnsupported": 24, "ConstInEnumUnsupported": 25, "ImportInEnumUnsupported": 26,
     "OptionInEnumUnsupported": 27, "EnumInEnumUnsupported": 28, "MessageInEnumUnsupported": 29,
     "MessageFieldInEnumUnsupported": 30, "ProtoNameUndefined": 31,
@@ -105,8 +106,6 @@ def do_job(job):
                       "line": 0, "rows": []}
     except ZeroDivisionError as e:
         res["obs"] = {"code": 36, "cls": "ZeroDivisionError", "file": "", "line": 0, "rows": []}
-    except AttributeError as e:
-        res["obs"] = {"code": 22, "cls": "AttributeError", "file": "", "line": 0, "rows": [], "msg": str(e)[:200]}
     except BaseException as e:  # noqa
         res["obs"] = {"code": 97, "cls": type(e).__name__, "file": "", "line": 0, "rows": [], "msg": str(e)[:200]}
     finally:
